@@ -471,6 +471,7 @@ type refResult struct {
 	V        refVerdict
 	Rec      []byte
 	WantErr  bool // mustYield together with a non-nil error (content-type mismatch)
+	ErrMaybe bool // mustYield; whether an error accompanies the record is not specified (empty Content-Type value on a lenient framing)
 	Consumed int  // bytes of the stream consumed (mustYield only)
 	Tail     []byte
 }
@@ -577,6 +578,10 @@ func refHeader(stream []byte, mtype string, strict bool) refResult {
 		}
 	} else if ctype != mtype {
 		res.WantErr = true
+		if ctype == "" && !strict {
+			// a Content-Type field with an empty value: "set but does not match" or "omitted"? not specified
+			res.WantErr, res.ErrMaybe = false, true
+		}
 	}
 	return res
 }
@@ -706,6 +711,19 @@ func c12Judge(r *SeqRun, fs framingSpec, stream []byte, cuts []int, eof, oneByte
 				switch ref.V {
 				case mustYield:
 					class += "Y"
+					if ref.ErrMaybe {
+						if len(b) > 0 || err == nil {
+							if !bytes.Equal(b, ref.Rec) {
+								r.Fail("C12.R2", input(), fmt.Sprintf("the documented format yields record %q here, Recv returned %q (err=%v)", ref.Rec, b, err), "")
+								return
+							}
+						}
+						rest = rest[ref.Consumed:]
+						if err != nil {
+							specified = false
+						}
+						continue
+					}
 					if err == nil && ref.WantErr {
 						r.Fail("C12.R2", input(), fmt.Sprintf("content type does not match %q but Recv reported no error", fs.MType), "")
 						return
